@@ -313,6 +313,14 @@ func init() {
 		if len(seeds) == 0 {
 			seeds = []uint64{0}
 		}
+		if len(c.Blocks) > 0 {
+			for _, b := range c.Blocks {
+				cc := *c
+				cc.Block = b
+				r.Runs = append(r.Runs, runProgram(&cc, seeds[0]))
+			}
+			return
+		}
 		for _, s := range seeds {
 			r.Runs = append(r.Runs, runProgram(c, s))
 		}
